@@ -58,7 +58,14 @@ def gen_book(rng):
         reads.append(t)
     if rng.random() < 0.15:
         reads = reads[: rng.randint(0, len(reads))]      # the clock then stands still
-    return {"kind": "book", "ivl": ivl, "ticks": ticks, "reads": reads}
+    c = {"kind": "book", "ivl": ivl, "ticks": ticks, "reads": reads}
+    if rng.random() < 0.35:
+        # equal step durations on a non-dyadic time base (0.05 s, 1/6 s ...): the statistics see values equal up to rounding
+        c["unit"] = rng.choice([0.05, 0.025, 1 / 6, 0.3])
+        step = rng.choice([1, 1, 2])
+        c["reads"] = [step * (i + 1) for i in range(4 * ticks + 2)]
+        c["ivl"] = rng.choice([2, 5, 8, 20, 40])
+    return c
 
 
 def gen(rng, tier):
@@ -75,7 +82,21 @@ def precheck(case, obs):
         return None
     if obs.get("deadlock") is not None:
         return {"agree": True, "prop_ok": False}
+    if framework_exception(obs):
+        return {"agree": False, "prop_ok": False}
     return None
+
+
+def framework_exception(obs):
+    """a background thread flagged an exception although none of its user callbacks had raised: the framework's own
+    bookkeeping ended the run"""
+    raised = set()
+    for e in obs.get("trace") or []:
+        if e[1] == "cb_raise":
+            raised.add(e[0])
+        elif e[1] == "set" and str(e[2]).startswith("exc") and e[0].startswith("bg") and e[0] not in raised:
+            return True
+    return False
 
 
 def ns(x):
@@ -121,11 +142,11 @@ def coq_timeline(case, obs):
     return "{| tl_scale := %s; tl_limit := %s; tl_period := %s; tl_evs := %s |}" % (cq_frac(case.get("time_scale", 1.0)), lim, ns(case.get("loop_delay", 0.001)), cl(evs))
 
 
-def coq_evs(seg):
+def coq_evs(seg, k=1):
     out = []
     for e in seg:
         if e[0] == "r":
-            out.append(f"ERead {cz(e[1])}")
+            out.append(f"ERead {cz(k * e[1])}")
         elif e[0] == "c":
             out.append(f"ECb {cn(e[1])}")
         elif e[0] == "raise":
@@ -137,20 +158,30 @@ def coq_bout(o):
     return {"quiet": "BQuiet", "raise": "BRaise"}.get(o[0]) or f"(BLogged {cn(o[1])})"
 
 
+def _scaled(case):
+    """with a non-dyadic time base the model counts half-ticks: the interval is ivl + 1/2 ticks"""
+    if case.get("unit"):
+        return 2 * case["ivl"] + 1, [2 * r for r in case["reads"]], 2
+    return case["ivl"], list(case["reads"]), 1
+
+
 def coq_binput(case, obs):
-    return "{| b_strict := %s; b_ivl := %s; b_reads := %s; b_ticks := %s |}" % (cb(obs.get("strict", True)), cz(case["ivl"]), cl(cz(r) for r in case["reads"]), cn(case["ticks"]))
+    ivl, reads, _ = _scaled(case)
+    return "{| b_strict := %s; b_ivl := %s; b_reads := %s; b_ticks := %s |}" % (cb(obs.get("strict", True)), cz(ivl), cl(cz(r) for r in reads), cn(case["ticks"]))
 
 
 def coq_case(case, obs):
     if case.get("kind") == "book":
-        ticks = cl(f"({coq_evs(s)}, {coq_bout(o)})" for s, o in obs["ticks"])
-        return f"(C08Book {coq_binput(case, obs)} ({coq_evs(obs['ctor'])}, {ticks}))"
+        k = _scaled(case)[2]
+        ticks = cl(f"({coq_evs(s, k)}, {coq_bout(o)})" for s, o in obs["ticks"])
+        return f"(C08Book {coq_binput(case, obs)} ({coq_evs(obs['ctor'], k)}, {ticks}))"
     return f"(C08Run {B.coq_sysin(case, obs)} {B.coq_trace(obs['trace'])} {coq_timeline(case, obs)})"
 
 
 def coq_expected(case, obs):
     if case.get("kind") == "book":
-        return f"inf_trace false {cb(obs.get('strict', True))} {cz(case['ivl'])} {cl(cz(r) for r in case['reads'])} {cn(case['ticks'])}"
+        ivl, reads, _ = _scaled(case)
+        return f"inf_trace false {cb(obs.get('strict', True))} {cz(ivl)} {cl(cz(r) for r in reads)} {cn(case['ticks'])}"
     return B.coq_expected(case, obs)
 
 
@@ -174,6 +205,8 @@ def signature(case, obs):
         return "bookkeeping-differs"
     if obs.get("deadlock") is not None:
         return "does-not-end"
+    if framework_exception(obs):
+        return "framework-bookkeeping-ended-the-run"
     return "uptime-or-cause"
 
 
